@@ -9,10 +9,11 @@ import (
 	vrt "github.com/AliceO2Group/Control/zz_vrt"
 )
 
-// C14MergeModel is what mergo.Merge(&dst, src, mergo.WithOverride) does on map[string]string: every
-// entry of src, empty values included, replaces the entry of dst. It stands for the reflection-based
-// library call under the interpreter; TestVerifNativeMergoModel compares it with the real mergo on
-// every run.
+// C14MergeModel is what mergo.Merge does on map[string]string. With mergo.WithOverride (the only option the
+// code base uses on maps): every entry of src, empty values included, replaces the entry of dst. Without an
+// option: an entry of src is taken only where dst has no entry or an empty one. It stands for the
+// reflection-based library call under the interpreter; TestVerifNativeMergoModel compares both modes with the
+// real mergo on every run.
 func C14MergeModel(dst, src interface{}, opts ...func(*mergo.Config)) error {
 	d, ok1 := dst.(*map[string]string)
 	s, ok2 := src.(map[string]string)
@@ -23,6 +24,11 @@ func C14MergeModel(dst, src interface{}, opts ...func(*mergo.Config)) error {
 		*d = map[string]string{}
 	}
 	for k, v := range s {
+		if len(opts) == 0 {
+			if cur, has := (*d)[k]; has && cur != "" {
+				continue
+			}
+		}
 		(*d)[k] = v
 	}
 	return nil
